@@ -6,6 +6,7 @@
      lbl  <id> <hex sql | ->
      sel  <id> <model/implementation mismatch 0/1> <spec violation 0/1> <duplicate-label-set spec violation 0/1>
      sem  <id> <verdict code>
+     psem <id> <verdict code>
    Atoms: decimal integers (any size), t / f, none, constructor names, strings as h<hex bytes>. *)
 open Promsel
 
@@ -117,6 +118,10 @@ let ts_of = function
   | L [d; fp; t; l] -> { t_date = z_of d; t_fp = n_of fp; t_type = z_of t; t_labels = labels_of l } | _ -> fail_sx "tsrow"
 let db_of = function
   | L [g; s; t] -> { d_gin = list_of gin_of g; d_samples = list_of sample_of s; d_series = list_of ts_of t } | _ -> fail_sx "database"
+let pstored_of = function
+  | L [fp; d; tid; svc; stu; l] -> { p_fp = n_of fp; p_date = z_of d; p_type_id = str_of tid; p_service = str_of svc;
+                                     p_stu = list_of (pair_of str_of str_of) stu; p_labels = labels_of l }
+  | _ -> fail_sx "pstored"
 let tbl_of = list_of (function L [p; v; b] -> ((str_of p, str_of v), bool_of b) | _ -> fail_sx "oracle entry")
 
 let hex_of_chars (l : char list) : string =
@@ -148,6 +153,11 @@ let handle (x : sx) : unit =
     let se = { se_id = z_of id; se_cluster = bool_of cluster; se_hints = hints_of h; se_ms = list_of matcher_of ms; se_db = db_of db;
                se_impl = select_of tree; se_text = str_of text; se_search = tbl_of search; se_full = tbl_of full } in
     Printf.printf "sem %d %d\n" (int_of id) (int_of_z (sem_verdict se))
+  | L [A "psem"; id; cluster; table; from; to_; sels; series; tree; text; search; full] ->
+    let pe = { pe_id = z_of id; pe_cluster = bool_of cluster; pe_table = str_of table; pe_from_ns = z_of from; pe_to_ns = z_of to_;
+               pe_sels = list_of selector_of sels; pe_series = list_of pstored_of series; pe_impl = select_of tree;
+               pe_text = str_of text; pe_search = tbl_of search; pe_full = tbl_of full } in
+    Printf.printf "psem %d %d\n" (int_of id) (int_of_z (psem_verdict pe))
   | _ -> fail_sx "case"
 
 let () =
